@@ -738,10 +738,95 @@ def async_cache_then_restart_same_loop(k, tmpdir):
     return out
 
 
+# ------------------------------------------------------------------------------ C14: a failing node without call location
+def handbuilt_failing_node(k):
+    """a DAG assembled from ExecNode objects (no describing call, hence no call location): when a node fails the call
+    raises the node's ORIGINAL exception ("or is the original exception when no location is known")"""
+    from tawazi import DAG as _DAG
+    from tawazi._helpers import StrictDict as _SD
+    from tawazi.node import ExecNode as _EN, UsageExecNode as _UX
+
+    class Bare(Exception):
+        pass
+
+    def first():
+        return 1
+
+    def faulty(x):
+        raise Bare("faulty %d" % k)
+
+    def after(x):
+        return x
+    ran = []
+
+    def after_w(x):
+        ran.append("after")
+        return after(x)
+    n1 = _EN(id_="sc_hb_first%d" % k, exec_function=first)
+    n2 = _EN(id_="sc_hb_faulty%d" % k, exec_function=faulty, args=[_UX(n1.id)])
+    n3 = _EN(id_="sc_hb_after%d" % k, exec_function=after_w, args=[_UX(n2.id)])
+    try:
+        d = _DAG("sc_hb%d" % k, _SD(), _SD((x.id, x) for x in (n1, n2, n3)), [], [], 2)
+    except BaseException as e:  # noqa: BLE001
+        return ["a DAG assembled from ExecNode objects does not build: %s: %s" % (type(e).__name__, e)]
+    st = in_thread(lambda: d(), 10)
+    out = []
+    if st[0] != "raise":
+        return ["hand-built DAG with a failing node: %r" % (st,)]
+    e = st[1]
+    if not isinstance(e, Bare) and not (type(e).__name__ == "TawaziBaseException" and n2.id in str(e) and isinstance(e.__cause__, Bare) and __import__("re").search(r" at \S+:\d+\s*$", str(e)) is not None):
+        out.append("node %s (no call location known) failed with Bare(...): the call raised %s: %r, which is neither the original exception nor a wrapper naming the node AND a location" % (n2.id, type(e).__name__, str(e)[:120]))
+    if ran:
+        out.append("a node depending on the failed node was started")
+    return out
+
+
+# ------------------------------------------------------------------------------ C03 / C11: embedding a DAG that is already set up
+def nested_dag_already_set_up(k, is_async):
+    """the inner DAG has been set up on its own BEFORE it is embedded in an outer DAG: its setup node is not entered again by
+    the outer DAG's executions (its stored result is carried over)"""
+    cnt = collections.Counter()
+
+    def model():
+        cnt["model"] += 1
+        return ("model", cnt["model"])
+    mx = tawazi.xn(named(model, "sc_asm%d" % k), setup=True)
+
+    def score(x, m):
+        cnt["score"] += 1
+        return (x, m)
+    sx = tawazi.xn(named(score, "sc_ass%d" % k))
+
+    def inner(x):
+        return sx(x, mx())
+    din = tawazi.dag(named(inner, "sc_asin%d" % k))
+    st0 = in_thread(lambda: din.setup(), 10) if k % 2 else in_thread(lambda: din(0), 10)
+    if st0[0] != "ok":
+        return []
+    before = cnt["model"]
+
+    def outer(x):
+        return din(x)
+    d = tawazi.dag(named(outer, "sc_asout%d" % k), is_async=is_async)
+    call = (lambda th: in_thread(lambda: asyncio.run(th()), 10)) if is_async else (lambda th: in_thread(th, 10))
+    sts = [call(lambda: d(1)), call(lambda: d(2))]
+    if any(st[0] != "ok" for st in sts):
+        return ["embedding a DAG that is already set up: %r" % ([st for st in sts if st[0] != "ok"][:1],)]
+    out = []
+    if before != 1 or cnt["model"] != 1:
+        out.append("the setup node of a nested DAG that had been set up before it was embedded was entered %d more time(s) by the outer DAG's executions" % (cnt["model"] - before))
+    if sts[0][1] != (1, ("model", 1)) or sts[1][1] != (2, ("model", 1)):
+        out.append("outer calls returned %r, %r; the stored setup result is ('model', 1)" % (sts[0][1], sts[1][1]))
+    return out
+
+
 def run(pid, tier, seed, res):
     n = 2 if tier == "quick" else 8
     for k in range(n):
         if pid == "C14":
+            res.evaluations += 1
+            for msg in handbuilt_failing_node(k):
+                res.hit("C14", "monitor", msg, dict(engine="scenario", kind="monitor", scenario="handbuilt_failing_node", k=k))
             res.evaluations += 1
             for msg in failing_node_identity(k):
                 res.hit("C14", "monitor", msg, dict(engine="scenario", kind="monitor", scenario="failing_node_identity", k=k))
@@ -771,6 +856,11 @@ def run(pid, tier, seed, res):
                 res.evaluations += 1
                 for p_, msg in wide_parallelism(2 * k + int(fl), fl):
                     res.hit(p_, "monitor", msg, dict(engine="scenario", kind="monitor", scenario="wide_parallelism", k=k, is_async=fl))
+        if pid in ("C11", "C03"):
+            for fl in (False, True):
+                res.evaluations += 1
+                for msg in nested_dag_already_set_up(2 * k + int(fl), fl):
+                    res.hit(pid, "monitor", msg, dict(engine="scenario", kind="monitor", scenario="nested_dag_already_set_up", k=k, is_async=fl))
         if pid == "C11":
             for fl in (False, True):
                 res.evaluations += 1
